@@ -511,6 +511,87 @@ func runFault(it *FaultItem, ks *sut.KeySet, workRoot string) (res FaultResult) 
 		}
 		return
 	}
+	if it.Witness == "stale-handle" {
+		// a handle whose entry was removed / renamed / replaced by a directory behind its back: whatever its
+		// Read, Write, Sync or Close answer, the call returns and the next calls get the drive
+		for round, how := range []string{"remove", "rename", "removeall-parent", "replace-by-dir"} {
+			inst, _, _, ok := fresh()
+			if !ok {
+				return
+			}
+			res.Injections++
+			call := Call{Op: "StaleHandle", P: []string{"zz-d", "f"}, C: how, K: round}
+			var setupErr error
+			okc, pan := sut.Watchdog(40*time.Second, func() {
+				if setupErr = inst.FS.Mkdir("/zz-d", 0o755); setupErr != nil {
+					return
+				}
+				f, err := inst.FS.Create("/zz-d/f")
+				if err != nil {
+					setupErr = err
+					return
+				}
+				_, _ = f.Write(make([]byte, 3000))
+				if setupErr = f.Close(); setupErr != nil {
+					return
+				}
+				rd, err := inst.FS.Open("/zz-d/f")
+				if err != nil {
+					setupErr = err
+					return
+				}
+				wr, err := inst.FS.OpenFile("/zz-d/f", os.O_RDWR|os.O_APPEND, 0)
+				if err != nil {
+					setupErr = err
+					return
+				}
+				switch how {
+				case "remove":
+					_ = inst.FS.Remove("/zz-d/f")
+				case "rename":
+					_ = inst.FS.Rename("/zz-d/f", "/zz-d/g")
+				case "removeall-parent":
+					_ = inst.FS.RemoveAll("/zz-d")
+				case "replace-by-dir":
+					_ = inst.FS.Remove("/zz-d/f")
+					_ = inst.FS.Mkdir("/zz-d/f", 0o755)
+				}
+				buf := make([]byte, 100)
+				_, _ = rd.Read(buf)
+				_, _ = rd.ReadAt(buf, 10)
+				_ = rd.Close()
+				_, _ = wr.Write([]byte("tail"))
+				_ = wr.Sync()
+				_ = wr.Close()
+			})
+			if !okc || pan != nil {
+				add(call, "calls on handles whose entry was changed behind their back (%s) did not return / panicked: %v", how, pan)
+				res.Hang = !okc
+				res.Dump = goroutineDump()
+				inst.Close()
+				return
+			}
+			if setupErr != nil {
+				res.Infra = "scenario setup: " + setupErr.Error()
+				inst.Close()
+				return
+			}
+			okp, panp := sut.Watchdog(25*time.Second, func() {
+				_ = inst.FS.Mkdir("/zz-after", 0o755)
+				_, _ = inst.FS.Stat("/")
+				_, _ = sut.ReadAll(inst.FS, "/zz-d/g")
+			})
+			if !okp || panp != nil {
+				add(call, "after reading / writing through handles whose entry was changed behind their back (%s), the next calls do not return (drive or lock not released): %v", how, panp)
+				res.Hang = !okp
+				res.Dump = goroutineDump()
+				inst.Close()
+				return
+			}
+			inst.Close()
+		}
+		return
+	}
 	if it.Witness == "partialread" {
 		// a reader that consumed only part of a multi-record file, then a write call
 		inst, w, _, ok := fresh()
